@@ -77,6 +77,9 @@ class SQLStorage(Storage):
         log.info('Updated Policy with UID=%s. New value is: %s', policy.uid, policy)
 
     def delete(self, uid):
+        # not every database enforces ON DELETE CASCADE (e.g. SQLite by default) - delete child rows explicitly
+        for child_model in (PolicySubjectModel, PolicyResourceModel, PolicyActionModel):
+            self.session.query(child_model).filter(child_model.uid == uid).delete()
         self.session.query(PolicyModel).filter(PolicyModel.uid == uid).delete()
         log.info('Deleted Policy with UID=%s.', uid)
 
